@@ -64,6 +64,23 @@ pub fn canon(level: u8, x: &str) -> String {
                 .collect::<Vec<_>>()
                 .join(" ")
         }
+        12 => {
+            // L1 on the result, the call log (the trailing ` L:<n> ..`) is ignored
+            match x.rfind(" L:") {
+                Some(i) => crate::wire::l1(&x[..i]),
+                None => crate::wire::l1(x),
+            }
+        }
+        6 => {
+            // outputs of a whole history joined by " | ": each compared at L1, call logs ignored
+            x.split(" | ")
+                .map(|part| match part.rfind(" L:") {
+                    Some(i) => crate::wire::l1(&part[..i]),
+                    None => crate::wire::l1(part),
+                })
+                .collect::<Vec<_>>()
+                .join(" | ")
+        }
         8 => {
             // outcome class only: a value ("ok") or a failure ("E")
             let head = x.split(' ').next().unwrap_or("");
@@ -170,6 +187,33 @@ impl Report {
                     expected: a.clone(),
                     why: format!("model request: {}", p.request),
                 });
+            }
+        }
+    }
+
+    /// Like `compare_with_model`, with the requests spread over `n` driver processes.
+    pub fn compare_with_model_par(&mut self, driver: &str, pending: &[Pending], n: usize) {
+        if pending.len() < 2000 || n <= 1 {
+            return self.compare_with_model(driver, pending);
+        }
+        let chunk = (pending.len() + n - 1) / n;
+        let answers: Vec<Result<Vec<String>, String>> = std::thread::scope(|sc| {
+            let hs: Vec<_> = pending
+                .chunks(chunk)
+                .map(|c| {
+                    let reqs: Vec<String> = c.iter().map(|p| p.request.clone()).collect();
+                    sc.spawn(move || run_model(driver, &reqs))
+                })
+                .collect();
+            hs.into_iter().map(|h| h.join().unwrap_or_else(|_| Err("model thread panicked".to_string()))).collect()
+        });
+        for (c, a) in pending.chunks(chunk).zip(answers.into_iter()) {
+            match a {
+                Err(e) => self.model_error = Some(e),
+                Ok(lines) => {
+                    self.model_requests += c.len() as u64;
+                    self.compare_answers(c, &lines)
+                }
             }
         }
     }
